@@ -1605,7 +1605,10 @@ namespace bloch::runtime {
         bool prevStatic = m_inStaticContext;
         bool prevCtor = m_inConstructor;
         bool prevDtor = m_inDestructor;
-        m_currentClassCtx = staticDispatchClass ? staticDispatchClass : method->owner;
+        // The code of a method belongs to the class that declares it: bare names, 'super' and
+        // unqualified calls inside it are resolved from there, whatever the static type of the
+        // reference it was called through or the dynamic class of the receiver.
+        m_currentClassCtx = method->owner ? method->owner : staticDispatchClass;
         m_inStaticContext = method->isStatic;
         m_inConstructor = false;
         m_inDestructor = false;
@@ -2845,6 +2848,13 @@ namespace bloch::runtime {
                             throw BlochError(
                                 ErrorCategory::Runtime, callExpr->line, callExpr->column,
                                 "instance method '" + name + "' requires an object receiver");
+                        }
+                        // An unqualified call is a call on 'this': virtual methods dispatch on
+                        // the receiver's dynamic class exactly as 'this.m()' does.
+                        if (method->isVirtual && receiver->cls) {
+                            auto vit = receiver->cls->vtable.find(method->signature);
+                            if (vit != receiver->cls->vtable.end())
+                                method = vit->second;
                         }
                     }
                     return callMethod(method, staticCls, receiver, args);
